@@ -32,12 +32,17 @@ def features(beh):
     coverage-guided selection: what happened, in which abstract situation, after what"""
     feats = set()
     spanned = set()
+    held, late_ok = {}, set()
+    # replicas that led, lost leadership while up (the same partition object goes on as a follower) and
+    # how many records were waiting in their commit queue at that moment
+    led = {}
+    again = set()
     prev = 'Init'
     prev2 = '-'
     for idx, st in enumerate(beh[1:]):
         a = st['last']
         try:
-            state = {k: core.tlaval.state_var(st['body'], k) for k in ('meta', 'up', 'pend', 'taint', 'role')}
+            state = {k: core.tlaval.state_var(st['body'], k) for k in ('meta', 'up', 'pend', 'taint', 'role', 'isrOff', 'log', 'inflight', 'lagging')}
         except Exception:
             state = None
         kind = a['a']
@@ -74,9 +79,73 @@ def features(beh):
                 det = _role(state, a['f'])
                 feats.add(('x', 'fetch-lost', det, bool(state['pend'][meta['leader']])))
             elif kind == 'Elect':
+                try:
+                    pre_meta = core.tlaval.state_var(beh[idx]['body'], 'meta')
+                    pre_up = core.tlaval.state_var(beh[idx]['body'], 'up')
+                    pre_pend = core.tlaval.state_var(beh[idx]['body'], 'pend')
+                    old = pre_meta['leader']
+                    if a['n'] in led:
+                        # the same partition object leads again after it followed somebody else
+                        feats.add(('x', 'leads-again', min(led[a['n']], 2), len(state['log'][a['n']]) > 0))
+                        again.add(a['n'])
+                    if pre_up[old]:
+                        led[old] = len(pre_pend[old])
+                except Exception:
+                    pass
                 det = ('u' if state['up'][a['n']] else 'd') + ('r' if a['reach'] else 'n') + ('L%d' % len(a['lag']['__set__']))
             elif kind in ('StaleFetch', 'ApplyMeta'):
                 det = _role(state, a['f'])
+            elif kind == 'FetchHold':
+                det = _role(state, a['f'])
+                held[a['f']] = idx
+            elif kind == 'Deliver':
+                # a response delivered late: what happened to the follower and the leader in between, whether
+                # it carried records, whether the follower (still / again) follows, lagging or not
+                det = _role(state, a['f'])
+                try:
+                    pre = core.tlaval.state_var(beh[idx]['body'], 'inflight')[a['f']][0]
+                    between = tuple(sorted({x['last']['a'] for x in beh[held.get(a['f'], idx) + 2:idx + 1]}
+                                           & {'Elect', 'PauseResume', 'Crash', 'Restart', 'ApplyMeta', 'Publish', 'Shrink', 'Expand'}))
+                    lg = core.tlaval.state_var(beh[idx]['body'], 'log')[a['f']]
+                    feats.add(('x', 'deliver', pre['ok'], bool(pre['data']), between,
+                               (pre['base'] > len(lg)) - (pre['base'] < len(lg)),
+                               state['role'][a['f']], a['f'] in state['lagging']['__set__']))
+                    if not pre['ok'] and pre['data'] and pre['base'] == len(lg) and state['role'][a['f']] == 'follower':
+                        late_ok.add(a['f'])
+                except Exception:
+                    pass
+            if kind in ('Crash', 'FetchLost', 'Restart'):
+                led.pop(a.get('r', a.get('f')), None)
+                again.discard(a.get('r', a.get('f')))
+            if kind == 'PauseResume':
+                led.clear()
+                again.clear()
+            if meta['leader'] in again and kind in ('Fetch', 'Publish', 'Shrink'):
+                try:
+                    hw0 = core.tlaval.state_var(beh[idx]['body'], 'hw')
+                    hw1 = core.tlaval.state_var(st['body'], 'hw')
+                    if hw1[meta['leader']] > hw0[meta['leader']]:
+                        feats.add(('x', 'commit-in-second-term', kind, min(led.get(meta['leader'], 0), 2)))
+                except Exception:
+                    pass
+            if kind in ('Fetch', 'Publish') and late_ok:
+                # ... and the commit point moves on after a stale response that would have fitted the log
+                feats.add(('x', 'after-stale-deliver', kind, kind == 'Fetch' and a['f'] in late_ok))
+            # the commit of the leader's oldest pending record is held up only by in-sync members whose
+            # offset the leader does not know (-1: re-admitted to the ISR, reset at the start of the term,
+            # partition object rebuilt): whoever credits them with anything commits without them
+            try:
+                ld = meta['leader']
+                q = state['pend'][ld]
+                if q and state['role'][ld] == 'leader':
+                    io = state['isrOff'][ld]
+                    unknown = [x for x in io if x != ld and io[x] == -1]
+                    known = [io[x] for x in io if x not in unknown]
+                    if unknown and known and min(known) >= q[0]['off']:
+                        feats.add(('x', 'commit-waits-for-unknown', kind, len(unknown),
+                                   any(len(state['log'][x]) <= q[0]['off'] for x in unknown)))
+            except Exception:
+                pass
             ctx = 'isr%d' % len(isr)
             ctx += 'p' if any(state['pend'][r] for r in state['pend']) else ''
             ctx += 'T' if state['taint']['__set__'] else ''
@@ -117,7 +186,8 @@ def execute(behaviours, d, timeout=1500):
         # the minimum ISR reaches the partition either through the server setting or through the stream's
         # own override; both routes are exercised (alternating by behaviour id)
         b['cfg'] = dict(b['cfg'])
-        b['cfg'].setdefault('minVia', 'stream' if b['id'] % 2 else 'server')
+        # - or through the stream override of a CreateStream request as the API translates it
+        b['cfg'].setdefault('minVia', ('server', 'stream', 'api')[b['id'] % 3])
         # a restarted replica gets the metadata by replaying the operations or from a snapshot of a live one
         b['cfg'].setdefault('restartVia', 'snapshot' if b['id'] % 4 >= 2 else 'replay')
     stim = os.path.join(d, 'stim.json')
@@ -200,7 +270,7 @@ def sizes_stage(rep, tier, seed, rng, prop, names, quick_n=40):
 
 # defective variants of single decisions of the MODEL (Mutant_Replication_<name>.cfg): TLC's counterexample of
 # each is a directed scenario in which exactly that decision matters; the real code must pass it
-MODEL_MUTANTS = ['OffsetsNone', 'OffsetsAhead']
+MODEL_MUTANTS = ['OffsetsNone', 'OffsetsAhead', 'LateAccept']
 
 
 def mutant_stimuli(rep, first_id=9301):
@@ -220,10 +290,15 @@ def mutant_stimuli(rep, first_id=9301):
 def run(rep, tier, seed, replay, prop, names, relevant, rule, rf1=False, mc_quick='MC_Replication.cfg'):
     if replay:
         behaviours = replay['replay']['behaviours']
-        for rf, tcfg in ((3, 'Trace_Replication.cfg'), (1, 'Trace_Replication_rf1.cfg')):
-            bs = [b for b in behaviours if b['cfg'].get('rf', 3) == rf]
-            if not bs:
-                continue
+        def trace_cfg(b):
+            c = b['cfg']
+            if c.get('wideEvery'):
+                return 'Trace_Replication_sizes.cfg'
+            if c.get('rf', 3) == 1:
+                return 'Trace_Replication_rf1min2.cfg' if c.get('minISR', 1) == 2 else 'Trace_Replication_rf1.cfg'
+            return 'Trace_Replication.cfg'
+        for tcfg in sorted({trace_cfg(b) for b in behaviours}):
+            bs = [b for b in behaviours if trace_cfg(b) == tcfg]
             with core.scratch(prop.lower()) as d:
                 trace = execute(bs, d)
                 judge(rep, bs, trace, prop, names, tcfg)
@@ -231,7 +306,7 @@ def run(rep, tier, seed, replay, prop, names, relevant, rule, rf1=False, mc_quic
         rep.cov['samples'] = behaviours[:1]
         rep.cov['evaluations'] = len(behaviours)
         return
-    designs = [mc_quick] if tier == 'quick' else ['MC_Replication_thorough.cfg', 'MC_Replication_alive.cfg',
+    designs = [mc_quick, 'MC_Replication_late.cfg'] if tier == 'quick' else ['MC_Replication_late_thorough.cfg', 'MC_Replication_thorough.cfg', 'MC_Replication_alive.cfg',
                                                    'MC_Replication_acks.cfg', 'MC_Replication_fallback.cfg']
     for cfg in designs:
         res = core.tlc_check('MC_Replication.tla', cfg, timeout=3 * 3600, coverage=False)
@@ -257,7 +332,12 @@ def run(rep, tier, seed, replay, prop, names, relevant, rule, rf1=False, mc_quic
     pool = core.tlc_simulate('MC_Replication.tla', 'Sim_Replication.cfg', 1500 if tier == 'quick' else 20000, 18, seed)
     # + the scenario family "a replica catches up across a leader change and is then restarted / elected"
     pool += core.tlc_simulate('MC_ReplicationFam.tla', 'Sim_ReplicationFam.cfg', 700 if tier == 'quick' else 7000, 18, seed + 5)
-    sims, nfeat = select(pool, 120 if tier == 'quick' else 1500, rng)
+    # + "the in-sync set changes while records are in flight", "a replication response is delivered late" and
+    # "a replica that led and then followed leads again"
+    for i, fam in enumerate(('isr', 'late', 'again')):
+        pool += core.tlc_simulate('MC_ReplicationFam2.tla', 'Sim_ReplicationFam2_%s.cfg' % fam, 500 if tier == 'quick' else 5000,
+                                  18, seed + 7 + i)
+    sims, nfeat = select(pool, 150 if tier == 'quick' else 1800, rng)
     rep.cov['selection'] = {'pool': len(pool), 'selected': len(sims), 'features_covered': nfeat}
     behaviours += [to_stimulus(b, i + 1) for i, b in enumerate(sims) if len(b) > 1]
     with core.scratch(prop.lower()) as d:
